@@ -215,6 +215,27 @@ def setup_repo_path():
         sys.path.insert(0, REPO)
 
 
+def _raised_in_repo(e):
+    """'<relpath>:<function>' of the innermost frame when it lies in the tree under test and no harness frame follows it
+    (a hook or wrapper of ours running inside repo code does not count), else None."""
+    try:
+        root = os.path.realpath(os.path.join(REPO, "optimum", "quanto"))
+        tb = e.__traceback__
+        frames = []
+        while tb is not None:
+            frames.append((os.path.realpath(tb.tb_frame.f_code.co_filename), tb.tb_frame.f_code.co_name))
+            tb = tb.tb_next
+        here = os.path.realpath(VERIF)
+        last_harness = max((i for i, (f, _) in enumerate(frames) if f.startswith(here)), default=-1)
+        repo_after = [(f, n) for f, n in frames[last_harness + 1:] if f.startswith(root)]
+        if not repo_after:
+            return None
+        f, n = repo_after[-1]
+        return os.path.relpath(f, root) + ":" + n
+    except Exception:
+        return None
+
+
 def worker_main(prop, tier, seed, shard, nshards, out_path, intent_path, resume_after, only_case):
     import faulthandler
 
@@ -240,9 +261,20 @@ def worker_main(prop, tier, seed, shard, nshards, out_path, intent_path, resume_
         finally:
             reach.flush_into(ctx)
             reach.stop()
-    except BaseException as e:  # monitor/harness failure => inconclusive, never a verdict
-        ctx.inconclusive("harness exception in shard %d: %s: %s\n%s" % (
-            shard, type(e).__name__, e, traceback.format_exc()[-3000:]))
+    except BaseException as e:
+        origin = _raised_in_repo(e)
+        if origin is not None and not isinstance(e, (KeyboardInterrupt, SystemExit, MemoryError)):
+            # The exception was raised by the code under test while a workload (not a guarded probe) was calling it
+            # on valid input: that is an observation about the tree, with the current case as witness. The rest of
+            # this shard is not explored.
+            ctx.violation(dict(prop=prop, kind="uncaught_exception_from_code_under_test", exc=type(e).__name__,
+                               where=origin),
+                          dict(msg=str(e)[:300], case=getattr(ctx, "case_desc", None),
+                               traceback=traceback.format_exc()[-2500:]))
+            ctx.count("shards_aborted_by_exception_in_code_under_test")
+        else:  # monitor/harness failure => inconclusive, never a verdict
+            ctx.inconclusive("harness exception in shard %d: %s: %s\n%s" % (
+                shard, type(e).__name__, e, traceback.format_exc()[-3000:]))
     res = ctx.dump()
     tmp = out_path + ".tmp"
     with open(tmp, "w") as f:
